@@ -191,6 +191,16 @@ func (s *sweepCodec) round(v interface{}) (b []byte, out interface{}, err error)
 			err = fmt.Errorf("with a reader returning one byte per Read the value is %v instead of %v", out2, out)
 		}
 	}
+	if err == nil {
+		// and through a reader that returns io.EOF in the same Read call as the last bytes
+		s.rd = guard.Reader{Data: b, EOFWithData: true}
+		out3, err3 := s.dec.ReadFrom(&s.rd)
+		if err3 != nil {
+			err = fmt.Errorf("with a reader returning io.EOF together with the last bytes: %v", err3)
+		} else if out3 != out && !(out3 != out3 && out != out) {
+			err = fmt.Errorf("with a reader returning io.EOF together with the last bytes the value is %v instead of %v", out3, out)
+		}
+	}
 	return
 }
 
@@ -616,6 +626,7 @@ func init() {
 					}})
 				}
 			}
+			us = append(us, largeUnit(tier, "[]int64", "Boundary", "ints"))
 			return us
 		},
 		RequireCover: func(tier string) []string {
